@@ -249,7 +249,7 @@ class Var:
             if 'null' in args and not val and val != 0:
                 try:
                     if hasattr(val, fmt):
-                        val = _get(val, fmt)()
+                        val = _keep_taint(val, _get(val, fmt)())
                     elif fmt in special_formats:
                         if fmt == 'html-quote' and \
                            isinstance(val, TaintedString):
@@ -278,7 +278,7 @@ class Var:
                 # We duplicate the code here to avoid exception handler
                 # which tends to screw up stack or leak
                 if hasattr(val, fmt):
-                    val = _get(val, fmt)()
+                    val = _keep_taint(val, _get(val, fmt)())
                 elif fmt in special_formats:
                     if fmt == 'html-quote' and \
                        isinstance(val, TaintedString):
@@ -307,7 +307,7 @@ class Var:
             if isinstance(val, TaintedString):
                 wastainted = 1
             val = ('%' + self.fmt) % (val,)
-            if wastainted and '<' in val:
+            if wastainted:
                 val = TaintedString(val)
 
         # next, look for upper, lower, etc
@@ -326,6 +326,7 @@ class Var:
                     'a <code>size</code> attribute was used in a '
                     '<code>var</code> tag with a non-integer value.')
             if len(val) > size:
+                wastainted = isinstance(val, TaintedString)
                 val = val[:size]
                 l_ = val.rfind(' ')
                 if l_ > size / 2:
@@ -335,6 +336,9 @@ class Var:
                 else:
                     l_ = '...'
                 val = val + l_
+                if wastainted and not isinstance(val, TaintedString):
+                    # the kept prefix of untrusted text is still untrusted
+                    val = TaintedString(val)
 
         if isinstance(val, TaintedString):
             val = val.quoted()
@@ -360,28 +364,35 @@ class Call:
         self.encoding = encoding
 
 
+def _keep_taint(v, result):
+    # Text derived from untrusted data stays untrusted.
+    if isinstance(v, TaintedString) and isinstance(result, str):
+        return TaintedString(result)
+    return result
+
+
 def url_quote(v, name='(Unknown name)', md={}):
     if isinstance(v, bytes):
         return urllib.parse.quote(v.decode('utf-8')).encode('utf-8')
-    return urllib.parse.quote(str(v))
+    return _keep_taint(v, urllib.parse.quote(str(v)))
 
 
 def url_quote_plus(v, name='(Unknown name)', md={}):
     if isinstance(v, bytes):
         return urllib.parse.quote_plus(v.decode('utf-8')).encode('utf-8')
-    return urllib.parse.quote_plus(str(v))
+    return _keep_taint(v, urllib.parse.quote_plus(str(v)))
 
 
 def url_unquote(v, name='(Unknown name)', md={}):
     if isinstance(v, bytes):
         return urllib.parse.unquote(v.decode('utf-8')).encode('utf-8')
-    return urllib.parse.unquote(str(v))
+    return _keep_taint(v, urllib.parse.unquote(str(v)))
 
 
 def url_unquote_plus(v, name='(Unknown name)', md={}):
     if isinstance(v, bytes):
         return urllib.parse.unquote_plus(v.decode('utf-8')).encode('utf-8')
-    return urllib.parse.unquote_plus(str(v))
+    return _keep_taint(v, urllib.parse.unquote_plus(str(v)))
 
 
 def newline_to_br(v, name='(Unknown name)', md={}):
@@ -412,6 +423,8 @@ def dollars_and_cents(v, name='(Unknown name)', md={}):
 def thousands_commas(v, name='(Unknown name)', md={},
                      thou=re.compile(
                          r"([0-9])([0-9][0-9][0-9]([,.]|$))").search):
+    if isinstance(v, TaintedString):
+        return TaintedString(thousands_commas(str(v)))
     v = str(v)
     vl = v.split('.')
     if not vl:
